@@ -1283,7 +1283,23 @@ impl RaftLogManager {
         }
         if pop_count > 0 {
             let log_count = self.logs.len() - pop_count;
+            //the files after the cut hold removed entries only: drop them for good
+            for item in &self.logs[log_count..] {
+                if let Some(log_actor) = &item.log_actor {
+                    log_actor.do_send(RaftLogCmd::Close);
+                }
+                let path = Self::get_log_path(&self.base_path, &item.log_range);
+                std::fs::remove_file(path).ok();
+            }
             self.logs = self.logs[..log_count].to_vec();
+            if let Some(last_log) = self.logs.last_mut() {
+                //the last kept file is the open one again
+                last_log.log_range.is_close = false;
+                last_log.log_range.record_count = 0;
+            }
+            let save_logs = self.logs.iter().map(|e| e.log_range.clone()).collect();
+            let index_request = RaftIndexRequest::SaveLogs(save_logs);
+            self.index_manager.as_ref().unwrap().do_send(index_request);
             if let Some(last_log) = self.logs.last_mut() {
                 let log_actor = if let Some(log_actor) = &last_log.log_actor {
                     log_actor.clone()
